@@ -852,3 +852,51 @@ def polarity(s: S, sign: int = +1, out: Optional[dict] = None, depth: int = 0) -
     for c in _vg.cells_of(s):
         out.setdefault(c, set()).add(0)
     return out
+
+
+def bool_signs(s, name: str, sign: int = +1, out: Optional[set] = None, depth: int = 0) -> set:
+    """Signs with which the boolean tensor parameter `name` enters the boolean value `s`
+    (+1: making more entries of the parameter True can only turn `s` from False to True).
+    `not` / `~` flip; any / all / gather / index / shape-only wrappers keep; `&`, `|` keep both
+    operands; a comparison or arithmetic makes the sign unknown (0).  Index operands of gather /
+    subscripts are not descended into (they select, they do not carry the truth value)."""
+    if out is None:
+        out = set()
+    if depth > 40 or not isinstance(s, S):
+        return out
+    o, a = s.op, s.args
+    d = depth + 1
+    if o == "param":
+        if a[0] == name:
+            out.add(sign)
+        return out
+    if o in ("not", "inv"):
+        return bool_signs(a[0], name, -sign, out, d)
+    if o in ("and", "or", "&", "|"):
+        for x in a:
+            bool_signs(x, name, sign, out, d)
+        return out
+    if o in ("phi", "ifexp"):
+        bool_signs(a[1], name, sign, out, d)
+        bool_signs(a[2], name, sign, out, d)
+        return out
+    if o == "attr" and a[1] in ("data", "T"):
+        return bool_signs(a[0], name, sign, out, d)
+    if o == "meth":
+        if a[1] in ("any", "all", "gather", "squeeze", "unsqueeze", "clone", "detach", "bool", "view", "reshape", "flatten", "expand", "contiguous", "cpu", "to", "item"):
+            return bool_signs(a[0], name, sign, out, d)
+        if a[1] in ("logical_not",):
+            return bool_signs(a[0], name, -sign, out, d)
+    if o == "sub":
+        return bool_signs(a[0], name, sign, out, d)
+    fn = _fn(s)
+    if fn in ("torch.any", "torch.all", "torch.gather", "any", "all", "bool"):
+        return bool_signs(a[1], name, sign, out, d)
+    if fn in ("torch.logical_not",):
+        return bool_signs(a[1], name, -sign, out, d)
+    if fn is not None and fn.endswith(":gather_by_index"):
+        return bool_signs(a[1], name, sign, out, d)
+    # anything else mentioning the parameter: unknown sign
+    if name in _vg.params_of(s):
+        out.add(0)
+    return out
